@@ -14,6 +14,7 @@ import (
 	_ "go.nanomsg.org/mangos/v3/transport/wss"
 	"go.nanomsg.org/mangos/v3/vh/c11"
 	"go.nanomsg.org/mangos/v3/vh/c13"
+	"go.nanomsg.org/mangos/v3/vh/c19"
 	"go.nanomsg.org/mangos/v3/vh/kinds"
 	"go.nanomsg.org/mangos/v3/vh/kit"
 	"go.nanomsg.org/mangos/v3/vh/vnet"
@@ -38,6 +39,9 @@ func init() {
 			// dials waiting for several busy inproc listeners: whichever accept loop becomes free, the dial
 			// waiting for it completes (no call blocks for ever, the listeners keep accepting)
 			{Name: "inproc-dials-waiting-for-several-busy-listeners", Mode: "enum", Reset: kit.ResetGlobals, Body: c13.InprocBusyListeners, NeedCounters: []string{"waiting-dial-connected-when-its-listener-became-free"}},
+			// SUB: subscription changes and queue-length changes on a socket / an inheriting context / a
+			// context with its own length, with messages queued: every call returns
+			{Name: "sub-reconfigured-with-messages-queued", Mode: "enum", Reset: kit.ResetGlobals, Body: c19.SubQLen, NeedCounters: []string{"context-length-differs-from-the-socket's"}},
 			{Name: "transport-config-errors", Mode: "hist", Reset: kit.ResetGlobals, Body: transportErrors,
 				NeedCounters: []string{"tls-no-config", "followup-completed"}},
 		}
